@@ -617,6 +617,9 @@ func buildSetEvents(id string, task *Task, updates map[string]string, agentID st
 
 	// If claim was set to a non-empty value and state wasn't explicitly set, default to doing
 	if claimWasSet && claimValue != "" && !stateWasSet {
+		if err := validateTransition(task.State, stateDoing); err != nil {
+			return nil, nil, err
+		}
 		event, err := newEvent("state", now, StateEvent{
 			ID:       id,
 			NewState: stateDoing,
